@@ -567,6 +567,12 @@ def load_database(dbpath, rootdir):
             log.warning(f"Ignoring non-existent file: {path}")
             continue
 
+        # Skip what is not a file.
+        # (e.g., a directory whose name ends in a source file extension)
+        if not os.path.isfile(path):
+            log.warning(f"Ignoring '{path}': not a file")
+            continue
+
         # Parse command-line arguments, emulating compiler-specific behavior.
         compiler_name = os.path.basename(command.arguments[0])
         parser = ArgumentParser(compiler_name)
